@@ -857,8 +857,10 @@ impl Interval {
         let zero = ScalarValue::new_zero(&dt)?;
         // We want 0 to be approachable from both negative and positive sides.
         let zero_point = match &dt {
-            DataType::Float32 | DataType::Float64 => Self::new(zero.clone(), zero),
-            _ => Self::new(prev_value(zero.clone()), next_value(zero)),
+            DataType::Float32 | DataType::Float64 => {
+                Self::new(zero.clone(), zero.clone())
+            }
+            _ => Self::new(prev_value(zero.clone()), next_value(zero.clone())),
         };
 
         // Exit early with an unbounded interval if zero is strictly inside the
@@ -867,23 +869,14 @@ impl Interval {
             Self::make_unbounded(&dt)
         }
         // At this point, we know that only one endpoint of the right hand side
-        // can be zero.
-        else if lhs_ref.contains(&zero_point)? == Self::TRUE
-            && !dt.is_unsigned_integer()
-        {
-            Ok(div_helper_lhs_zero_inclusive(
-                &dt,
-                lhs_ref,
-                rhs_ref,
-                &zero_point,
-            ))
+        // can be zero; i.e. the right hand side is either non-negative or
+        // non-positive. Note that the sign tests below must be made against
+        // zero itself (not against the zero point), as otherwise operands
+        // having an endpoint at zero would be classified with the wrong sign.
+        else if lhs_ref.contains_value(&zero)? && !dt.is_unsigned_integer() {
+            Ok(div_helper_lhs_zero_inclusive(&dt, lhs_ref, rhs_ref, &zero))
         } else {
-            Ok(div_helper_zero_exclusive(
-                &dt,
-                lhs_ref,
-                rhs_ref,
-                &zero_point,
-            ))
+            Ok(div_helper_zero_exclusive(&dt, lhs_ref, rhs_ref, &zero))
         }
     }
 
@@ -1648,10 +1641,10 @@ fn div_helper_lhs_zero_inclusive(
     dt: &DataType,
     lhs: &Interval,
     rhs: &Interval,
-    zero_point: &Interval,
+    zero: &ScalarValue,
 ) -> Interval {
     // With the following interval bounds, there is no possibility to create an invalid interval.
-    if rhs.upper <= zero_point.lower && !rhs.upper.is_null() {
+    if rhs.upper <= *zero && !rhs.upper.is_null() {
         // <-------=====0=====------->
         // <--======----0------------>
         let lower = div_bounds::<false>(dt, &lhs.upper, &rhs.upper);
@@ -1701,11 +1694,11 @@ fn div_helper_zero_exclusive(
     dt: &DataType,
     lhs: &Interval,
     rhs: &Interval,
-    zero_point: &Interval,
+    zero: &ScalarValue,
 ) -> Interval {
     let (lower, upper) = match (
-        lhs.upper <= zero_point.lower && !lhs.upper.is_null(),
-        rhs.upper <= zero_point.lower && !rhs.upper.is_null(),
+        lhs.upper <= *zero && !lhs.upper.is_null(),
+        rhs.upper <= *zero && !rhs.upper.is_null(),
     ) {
         // With the following interval bounds, there is no possibility to create an invalid interval.
         (true, true) => (
